@@ -1,6 +1,6 @@
 (* C11 -- no subform is silently dropped by the compiler.
-   Statements only; proofs are in Collect/Proofs.v (argument collection) and Compiler/Correct3.v. *)
-From HyV Require Import Collect.Model Collect.Proofs.
+   Statements only; proofs are in Collect/Proofs.v, Collect/Order.v (argument collection) and Compiler/Correct3.v. *)
+From HyV Require Import Collect.Model Collect.Proofs Collect.Order.
 
 (* _compile_collect, the one place where argument forms are distributed over the slots of a display, call
    or dict node: for every argument list of any length mixing ordinary forms, #* and #** unpackings and
@@ -20,6 +20,18 @@ Theorem C11_dict_keeps_every_argument : forall l keys vals, compile_dict l = Ok 
   forall n, occ n (ovars keys) + occ n (ovars vals) = occ n (cvars l).
 Proof. exact dict_keeps_every_argument. Qed.
 Print Assumptions C11_dict_keeps_every_argument.
+
+(* Stronger than the counts: a display holds its argument forms in SOURCE ORDER (so the slots cannot
+   be a permutation that drops one occurrence and doubles another elsewhere), and a dict's keys and values
+   are the even and odd slots of one slot sequence in source order. *)
+Theorem C11_display_keeps_source_order : forall l es, compile_display l = Ok es -> ovars es = cvars l.
+Proof. exact display_keeps_source_order. Qed.
+Print Assumptions C11_display_keeps_source_order.
+
+Theorem C11_dict_keeps_source_order : forall l keys vals, compile_dict l = Ok (keys, vals) ->
+  exists es, keys = evens es /\ vals = odds es /\ ovars es = cvars l.
+Proof. exact dict_keeps_source_order. Qed.
+Print Assumptions C11_dict_keeps_source_order.
 
 (* Where Python has no construct, compilation fails instead: a #** anywhere in a list/set/tuple display
    (or subscript, operator...: every non-dict, non-call use of the collector), and a dict with an odd
